@@ -61,6 +61,17 @@ CLAIMED = {
         "containers, grid 0..6, windows -2..3.",
    technique="TLA+ definitional oracle enumerated by TLC + replay of every case into the real functions",
    design="4/C17"),
+ "C09": dict(
+   text="spec/OverlapWindow.tla transcribes OverlapWindowPlugin (prepend cached input, compute, drop what was sent, withhold "
+        "results beyond end-2*right-1 with early split, multi-output cache_beyond alignment, input caching, final flush) over "
+        "every law-abiding input chunking; TLC checks the C09 predicates (OverlapWindowP.tla: concatenated output = window-local "
+        "computation of the whole run, contiguous, mutually aligned, nothing duplicated) on all states. Every terminal "
+        "behaviour is replayed through a real OverlapWindowPlugin subclass computing the same window-local functions; TLC "
+        "judges each recorded real run at P-level (OverlapWindowTrace.tla); I-level differences are drift.",
+   note="Trusted: TLC, harness plugins LocalA/LocalB (same integer functions as the spec), plugin driven through Plugin.iter. "
+        "Bounded: <=6 rows on grid 0..12, <=4 chunks, windows 0..3 x 0..3.",
+   technique="TLA+ model checking of an implementation-shaped spec + replay of all TLC behaviours into the real plugin + TLC trace validation at P-level",
+   design="4/C09"),
 }
 NOT_BUILT = "decision procedure (TLA+ module + binding) not built yet in this session; see DESIGN.md section 4 for the plan"
 
